@@ -211,7 +211,7 @@ def elems(t):
 
 
 def collision_kind(t):
-    """which record / sum of a not-ConvOK type has the key clash: 'pair', 'or' or 'pair+or' (classification only)"""
+    """which kind of node of a not-ConvOK type has the key clash: 'or' (possibly also a pair) or 'pair' (classification only)"""
     kinds = set()
 
     def walk(t):
@@ -236,7 +236,7 @@ def collision_kind(t):
             for c in t[3:]:
                 walk(c)
     walk(t)
-    return '+'.join(sorted(kinds)) or 'none'
+    return 'or' if 'or' in kinds else 'pair' if kinds else 'none'     # a clash in a sum decides: it sends values to the wrong variant
 
 
 class Case:
